@@ -453,8 +453,8 @@ func PropC10(c *vs.Case, f Factory, kind string) error {
 			log = append(log, "GC finalizer removed")
 		}
 	}
-	if len(env.CacheViolations) > 0 {
-		return vs.Violf("C17/cache-mutated", "shared cache objects changed during a sync: %v", env.CacheViolations)
+	if v := env.SharedStateViolation(); v != nil {
+		return v
 	}
 	return nil
 }
